@@ -404,7 +404,7 @@ func (x *Unit) heapGet(st *State, key string, srt Sort) T {
 }
 
 func sortedKeys[V any](m map[string]V) []string {
-	var out []string
+	out := []string{}
 	for k := range m {
 		out = append(out, k)
 	}
